@@ -611,7 +611,9 @@ pub fn dispatch(op: &str, args: &[&str]) -> Option<Res> {
             "tab.log2" => Ok(arg(args, 0)?.to_string()),
             // answers of the harness built WITHOUT the `std` feature (obtained by the case generator), echoed
             // so that the differ compares them with the model of the no_std estimator; `~` stands for a space
-            "ns" => {
+            // `lb`: the same echo for the registered (std) build: only the enclosure of the true logarithm is
+            // promised by log2_bounds, not the bit patterns, so the model checks the implementation's own answer
+            "ns" | "lb" => {
                 let p = arg(args, 0)?.replace('~', " ");
                 if let Some(v) = p.strip_prefix("ok ") {
                     Ok(v.to_string())
